@@ -386,7 +386,7 @@ def write_replay(prop, seed, case_input, events, diag, extra=None):
     return path
 
 
-def report(ctx, bad, cases_by_id, trace_path, max_replays=5):
+def report(ctx, bad, cases_by_id, trace_path, max_replays=8):
     """Print KNOWN-FINDING / VIOLATION lines. Returns (n_violations, known_ids)."""
     known, viol = classify(ctx.prop, bad)
     seen = {}
@@ -409,17 +409,24 @@ def report(ctx, bad, cases_by_id, trace_path, max_replays=5):
             hist[k] = hist.get(k, 0) + 1
         for k, n in sorted(hist.items(), key=lambda x: -x[1])[:25]:
             log("  rejected x%d: %s" % (n, k))
-        evs = case_events(trace_path, [b["case"] for b in viol[:max_replays]]) if trace_path else {}
-        done = set()
-        for b in viol[:max_replays]:
-            key = json.dumps({k: b.get(k) for k in ("diag",)}, sort_keys=True)
+        # one replay per distinct diagnosis first, then fill up
+        pickd, rest, seenk = [], [], set()
+        for b in viol:
+            k = (b.get("diag"), json.dumps(b.get("detail"))[:40] if not isinstance(b.get("detail"), dict) else "")
+            if k not in seenk:
+                seenk.add(k)
+                pickd.append(b)
+            else:
+                rest.append(b)
+        chosen = (pickd + rest)[:max_replays]
+        evs = case_events(trace_path, [b["case"] for b in chosen]) if trace_path else {}
+        for b in chosen:
             ci = cases_by_id(b["case"]) if cases_by_id else None
             path = write_replay(ctx.prop, ctx.seed, ci, evs.get(b["case"], []), b)
             log("VIOLATION property=%s replay=%s" % (ctx.prop, path))
             log("  diag=%s %s" % (b.get("diag"), json.dumps({k: v for k, v in b.items() if k not in ("cfg", "case", "at", "diag")})[:400]))
-            done.add(key)
-        if len(viol) > max_replays:
-            log("  ... %d more rejected cases (same run)" % (len(viol) - max_replays))
+        if len(viol) > len(chosen):
+            log("  ... %d more failing items (same run)" % (len(viol) - len(chosen)))
     return len(viol), sorted(seen)
 
 
